@@ -60,6 +60,12 @@ def run_cases(impl, model, cases):
         offs, _ = G.layout(c['proto'])
         ptrs = {k: VALS_ADDR + offs[k] for k, t in enumerate(c['proto']['args']) if t.startswith('rblk')}
         bad = H.compare_c06(c['proto'], c['body'], m, r, c['vals'], c['resvals'], ptrs, c['engine'])
+        if r.get('status') == 'ok' and r.get('out0'):
+            # lazy interfaces: the first call went through the generation wrapper / thunk
+            r0 = dict(r, out=r['out0'], outs=r['outs0'], pimg=r['pimg0'])
+            bad += ['first call (through the lazy-generation wrapper): ' + b
+                    for b in H.compare_c06(c['proto'], c['body'], m, r0, c['vals'], c['resvals'], ptrs, c['engine'])
+                    if not b.startswith(H.SRET_MSG)]
         if i in fobs:
             bad += H.compare_frame(fobs[i], frows['c%d' % i], c['proto']['vararg'])
             m['frame'] = dict(obs={k: (sorted(v) if isinstance(v, set) else v) for k, v in fobs[i].items()}, model=frows['c%d' % i])
@@ -316,6 +322,18 @@ def run(chk):
         chk.finding(signature(c2), replay_obj(c2, bad2, m2),
                     'MIR function %s entered via %s (%s body): %s' % (
                         G.proto_sig(c2['proto']), c2['engine'], c2['body']['kind'], '; '.join(bad2[:3])))
+    if not quick:
+        impl_dbg = vlib.build_harness('c05_probe', ['c05_probe.c', 'c05_asm.S'], variant='dbg')
+        sub = cases[:len(cases) // 4]
+        chk.dist('variant', 'asserts-on', len(sub))
+        for c, bad, m in run_cases(impl_dbg, model, sub):
+            bad = [b for b in bad if not b.startswith(H.SRET_MSG)]
+            if bad and ('dbg:' + signature(c)) not in seen:
+                seen.add('dbg:' + signature(c))
+                nbad += 1
+                if nbad <= 14:
+                    chk.finding(signature(c), replay_obj(c, bad, m), 'assert-enabled build: MIR function %s entered via %s (%s body): %s' % (
+                        G.proto_sig(c['proto']), c['engine'], c['body']['kind'], '; '.join(bad[:3])))
     for c2, bad2, m2 in gcc_callers(chk, model, quick):
         sig = 'c06:gcc-caller:' + signature(c2)
         if sig in seen:
@@ -334,6 +352,10 @@ def replay(chk, path):
     impl, model = build(chk)
     c = dict(proto=j['proto'], engine=j['engine'], body=j['body'], vals=[bytes.fromhex(v) for v in j['vals']],
              resvals=[bytes.fromhex(v) for v in j['resvals']], junk=j['junk'])
+    if j.get('target', 'tramp').startswith('gcaller'):
+        print('gcc-compiled caller case: re-run `./check C06` with seed %s (the C caller is regenerated from the prototype)' % json.load(open(path)).get('seed'))
+        print('prototype:', G.proto_sig(c['proto']), 'engine:', c['engine'], 'mismatches then:', j.get('mismatches'))
+        return 1
     (c, bad, m), = run_cases(impl, model, [c])
     print('signature:', G.proto_sig(c['proto']), 'engine:', c['engine'], 'body:', c['body']['kind'])
     print('mismatches:', bad)
